@@ -500,8 +500,10 @@ def gen_results(rng):
     for _ in range(rng.randint(0, 5)):
         kind = rng.choice(["bitstrings", "energy", "occupation", "expectation", "correlation_matrix", "fidelity"])
         suffix = opt(rng, 0.6, lambda: ident(rng, "s"))
-        if (kind, suffix) in tags:
-            continue
+        if tags and rng.random() < 0.25:
+            kind, suffix = rng.choice(sorted(tags, key=str))  # colliding tag
+        if (kind, suffix) in tags and rng.random() < 0.5:
+            continue  # otherwise: a second observable instance with the same tag (its own uuid)
         tags.add((kind, suffix))
         times = sorted({rng.choice([0.0, 0.1, 0.25, 0.5, 0.75, 1.0]) for _ in range(rng.randint(1, 3))})
         vals = []
